@@ -242,8 +242,9 @@ def fire_wait_timeout(loop, task: asyncio.Task, fn_name: str) -> bool:
         cb = h._callback
         # asyncio.tasks._wait -> loop.call_later(timeout, _release_waiter, waiter)
         if getattr(cb, '__name__', '') == '_release_waiter' and h._args and h._args[0] is getattr(task, '_fut_waiter', None):
+            args = tuple(h._args)
             h.cancel()
-            loop.call_soon(cb, *h._args)
+            loop.call_soon(cb, *args)
             return True
     return False
 
